@@ -3,7 +3,7 @@
 From SL Require Import Lib.Base Lib.Oracle Lib.ZqGroup Gen.Params Model.Gf128 Model.SoftSpoken Model.Endemic
   Model.RvoleCore Model.Rvole.
 From SL Require Import Proofs.Gf128Spec Proofs.SoftSpokenBytes Proofs.SoftSpokenC03 Proofs.Endemic Proofs.EndemicThm.
-From SL Require Import Proofs.RvoleLemmas Proofs.RvoleCorrect Proofs.RvoleTamper Proofs.RvolePipeline.
+From SL Require Import Proofs.RvoleLemmas Proofs.RvoleCorrect Proofs.RvoleTamper Proofs.RvolePipeline Proofs.RvoleOtReply.
 Local Open Scope Z_scope.
 
 (* ------------------------------------------------------------------ vocabulary *)
@@ -242,6 +242,20 @@ Proof.
   destruct (length ka + length kb =? rv_xi)%nat; [|intros [d D]; discriminate].
   unfold rvole_ot_recv_core. apply flip_mu_hash_rejected_lem; assumption.
 Qed.
+
+(** base-OT variant, corruption confined to the embedded base-OT replies.  PARTIAL: see the header of
+    Proofs/RvoleOtReply.v for the sentence that is not a theorem. *)
+Lemma rvole_ot_reply_tamper_partial_closed : forall G (O : group_ops G) (H : transcript_oracle) (q : Z)
+  (st : rvo_state) m2a m2b (m : rmsg),
+  (forall m2a' m2b',
+     (forall idx, (idx < eot_n)%nat -> read_side (ro_a st) m2a' idx = read_side (ro_a st) m2a idx) ->
+     (forall idx, (idx < eot_n)%nat -> read_side (ro_b st) m2b' idx = read_side (ro_b st) m2b idx) ->
+     rvole_ot_recv_process H q G O st m2a' m2b' m = rvole_ot_recv_process H q G O st m2a m2b m) /\
+  ((exists idx, (idx < eot_n)%nat /\ g_dec O (read_side (ro_a st) m2a idx) = None) \/
+   ((forall idx, (idx < eot_n)%nat -> g_dec O (read_side (ro_a st) m2a idx) <> None) /\
+    exists idx, (idx < eot_n)%nat /\ g_dec O (read_side (ro_b st) m2b idx) = None) ->
+   rvole_ot_recv_process H q G O st m2a m2b m = Err rv_err_decode).
+Proof. exact rvole_ot_reply_tamper_partial_lem. Qed.
 
 (* ================================================================== non-vacuity *)
 (** The premises are satisfiable: the secp256k1 order lies in the admitted range, and any OT-layer
